@@ -1296,7 +1296,7 @@ func c13Corpus() []*c13Case {
 		mk("rand-low", call("rand", vNum(0.999))), mk("rand-high", call("rand", vNum(2147483648))), mk("rand-neg", call("rand", vNum(-1))), mk("rand-inf", call("rand", vNum(math.Inf(1)))),
 		mk("printf-noformat", call("printf")), mk("printf-numformat", call("printf", vNum(1))), mk("sprintf-noformat", call("sprintf")),
 		mk("len-badarg", call("len", vNum(1))), mk("len-any", call("len", vAny(vStr("äb")))),
-		mk("C13_hsl_nan_refuted", call("hsl", vNum(math.NaN()))),
+		mk("C13_hsl_nan_before_fix_refuted (regression, 1433667)", call("hsl", vNum(math.NaN()))),
 		mk("hsl-doc", call("hsl", vNum(120)), call("hsl", vNum(0), vNum(100), vNum(50), vNum(100)), call("hsl", vNum(360), vNum(0.5), vNum(1e-7))),
 		mk("hsl-noargs", call("hsl")), mk("hsl-5args", call("hsl", vNum(1), vNum(1), vNum(1), vNum(1), vNum(1))),
 		mk("clear-0-1", call("clear"), call("clear", vStr("red"))), mk("clear-2args", call("clear", vStr("red"), vStr("blue"))),
